@@ -9,7 +9,7 @@ SPEC = dict(
     rtol=1e-9, atol=1e-12,
     rule="random trees from VERIF_SEED (1-12 bodies, thorough: 1/5 of the cases up to 40; chain/star/random/bushy; 17 mobilizer "
          "types x forward/reversed x {identity,translation,general}^2 frames x quaternion/Euler; mass properties from point clouds); "
-         "distinct = distinct exported tree records",
+         "distinct = distinct exported tree records; every case also exercises the documented zero-length argument conventions of the inverse-dynamics operators (8 combinations, floor 50% at u != 0)",
     partial='the property theorems are stated on the abstract Matrix twin TreeDynAbs.MBT; the executed rose-tree/list recursions of SimbodyModel/TreeDyn.lean are tied to it by NODE-LEVEL simulation theorems (TreeDynSim*.lean: for every executed subtree and incoming parent acceleration the value the executed pass stores at the node equals the twin quantity on the abstracted tree: multiplyByM, articulated body inertias P/P+/G incl. the explicit symmetrisation, multiplyByMInv, forward dynamics, inverse dynamics, J^T, reactions; free mobilizers only) plus refinement lemmas per 6-D operation. NOT proved: packing of the per-node blocks into the u-vector (slice/scatter, disjoint u0 ranges), construction of the tree from the flat parent array, that the Gauss-Jordan ginv inverts D (WF is a hypothesis of the ABI-dependent simulations, validated per case by O wf), hence no end-to-end array identity such as multiplyByM(multiplyByMInv f) = f for the executed functions; those links are carried by the correspondence',
     assumptions=[
         "exported-H mode: H columns (getHCol), Mk_G (getBodySpatialInertiaInGround), body origins and the velocity-dependent "
